@@ -73,6 +73,18 @@ def range_loop_general(interp, st, rng, fr):
     interp.block(st.orelse, fr)
 
 
+def _item_codec(item):
+    """the codec whose encoding an item of this kind has as a whole, when its class determines one"""
+    from .core import SRec
+    if isinstance(item, SRec):
+        name = getattr(item.cls, "__name__", "")
+        if name == "RecordHeader":
+            return ("rhdr",)
+        if hasattr(item.cls, "__flexible__"):
+            return ("ent", item.cls)
+    return None
+
+
 def writer_loop(interp, st, seq, fr):
     if isinstance(seq, SRange):
         return range_loop_general(interp, st, seq, fr)
@@ -118,7 +130,25 @@ def writer_loop(interp, st, seq, fr):
                 ctx.assume(f)
             s.emit(run)
         else:
-            raise Undecided(f"loop body emits {delta!r}, not a single item encoding")
+            codec = _item_codec(item)
+            ok = False
+            if codec is not None:
+                # the body wrote the item's encoding piecewise (e.g. key then value of a header): accept it when the
+                # pieces ARE the unfolding of the item's codec
+                from spec import kafka
+                from .core import Mismatch, equalise
+                try:
+                    whole = Enc(codec, item)
+                    cond = equalise(ctx, list(delta), list(kafka.unfold(ctx, whole)))
+                    ok = cond is True or (cond is not False and ctx.entails(cond))
+                except (Mismatch, Undecided):
+                    ok = False
+            if not ok:
+                raise Undecided(f"loop body emits {delta!r}, not a single item encoding")
+            run = Enc(("run", codec), seq)
+            for f in kafka.length_facts(run):
+                ctx.assume(f)
+            s.emit(run)
     interp.block(st.orelse, fr)
 
 
